@@ -43,7 +43,7 @@ class VerusResult:
         self.resource = []         # resource-limit hits: {kind, message, line}
 
 
-def run(path, extra=(), rlimit=None, timeout=900):
+def run(path, extra=(), rlimit=None, timeout=1500):
     res = VerusResult()
     cmd = [VERUS, path, "--output-json", "--time", "--multiple-errors", "6"]
     if rlimit:
